@@ -9,6 +9,7 @@ shared object (class-level wrappers) and/or at every line the library executes
 one after another on private fresh copies.
 """
 import hashlib
+import os
 import pickle
 
 from .. import core, libx, sched
@@ -424,12 +425,13 @@ def _where_probe(s):
     return s.switch_sites
 
 
-def execute(prog):
-    _install()
-    out = core.new_outcome()
-    mc = mcurves.by_name(prog["curve"])
+def _kinds(prog):
     gran = prog["gran"]
     kinds = {"explicit", "lock"}
+    if gran == "helpers":
+        # only the lines of the helper modules (first-use scenario)
+        kinds.add("line2")
+        return kinds
     if "attr" in gran:
         kinds.add("attr")
     if "line" in gran:
@@ -438,14 +440,17 @@ def execute(prog):
         # also every line of the helper modules (numbertheory, util,
         # rfc6979, der): module-level state there is shared by everything
         kinds.add("line2")
-    nth = len(prog["threads"])
-    if nth == 0 or not prog["shared"]:
-        return out
-    # ---- phase 1: sequential, private fresh objects -> expected values and
-    # per-thread step counts
+    return kinds
+
+
+def sequential_phase(prog):
+    """Each thread's program on private fresh objects, one after another:
+    the expected values and the per-thread step counts."""
+    _install()
+    kinds = _kinds(prog)
     expected = []
     lengths = []
-    for ti in range(nth):
+    for ti in range(len(prog["threads"])):
         w0 = World(prog)
         prepare_sigs(w0, prog)
         sub = dict(prog, threads=[prog["threads"][ti]])
@@ -455,6 +460,35 @@ def execute(prog):
                                     % s0.abort_reason)
         expected.append(res0[0])
         lengths.append(max(1, s0.threads[0].steps))
+    return expected, lengths
+
+
+def execute(prog):
+    if "first_use" in prog:
+        # replay of a first-use finding: the whole batch prefix, here (this
+        # must be a fresh interpreter for the window to exist)
+        out = core.new_outcome()
+        for p_ in prog["first_use"]:
+            out = execute(p_)
+            if out.get("violation"):
+                return out
+        return out
+    _install()
+    out = core.new_outcome()
+    mc = mcurves.by_name(prog["curve"])
+    kinds = _kinds(prog)
+    nth = len(prog["threads"])
+    if nth == 0 or not prog["shared"]:
+        return out
+    # ---- phase 1: sequential, private fresh objects -> expected values and
+    # per-thread step counts (given with the program when this interpreter
+    # must not touch the library before the concurrent phase)
+    if prog.get("expected") is not None:
+        expected = [[tuple(x) if x is not None else None for x in th]
+                    for th in prog["expected"]]
+        lengths = prog["lengths"]
+    else:
+        expected, lengths = sequential_phase(prog)
     # ---- phase 2: concurrent on shared objects
     cfg = dict(prog["sched"])
     if cfg["kind"] == "park" and "parks" not in cfg:
@@ -603,3 +637,117 @@ def to_trace(prog):
     p2 = copy.deepcopy(prog)
     p2["sched"] = dict(kind="trace", seed=0, trace=[list(x) for x in tr])
     return p2
+
+
+# ---------------------------------------------------------------------------
+# first use in the process: lazily initialised module-level state in the
+# helper modules (a per-hash template, a size cache ...) exists once per
+# interpreter, so a race on its initialisation can only be met by the first
+# run that reaches it.  A batch of programs, each using another hash function,
+# is executed in *fresh interpreters* (concurrent phase only: the expected
+# values are computed here, in the parent), switching only at helper-module
+# lines.
+
+FIRST_USE_HASHES = ["sha1", "sha224", "sha256", "sha384", "sha512", "md5",
+                    "sha3_256", "synth8", "synth20", "synth32", "synth48",
+                    "synth64"]
+
+
+def _first_use_programs(seed, tier, batch):
+    progs = []
+    for j, hname in enumerate(FIRST_USE_HASHES):
+        r = core.rng(core.derive(seed, "C18-first", tier, batch, j), "cfg")
+        mc = mcurves.by_name(r.choice(TOYS))
+        nkeys = r.choice([1, 1, 2])
+        shared = [dict(kind="key", d=libx.key_scalar(r, mc.n), unscaled=False,
+                       z=2, hash=hname) for _ in range(nkeys)]
+        threads = []
+        for _ in range(2):
+            ops = []
+            for _ in range(r.choice([1, 1, 2])):
+                ops.append(dict(op=r.choice(["sign_det", "sign_det",
+                                             "sign_det", "verify",
+                                             "sign_k", "to_string"]),
+                                s=r.randrange(nkeys), t=0,
+                                msg=r.choice(["00", "a5a5", "0102"]),
+                                k=libx.key_scalar(r, mc.n),
+                                enc="uncompressed"))
+            threads.append(ops)
+        progs.append(dict(curve=mc.name, scen="first_use", shared=shared,
+                          threads=threads, gran="helpers",
+                          # thread 0 runs first and is parked once inside
+                          # its first operation; thread 1 then runs through
+                          sched=dict(kind="park", seed=r.getrandbits(48),
+                                     order=[1, 0],
+                                     park_fr=[[0, r.random() * 0.7]])))
+    return progs
+
+
+def _first_use_worker():
+    """Runs in a fresh interpreter: programs (with expected values) on stdin,
+    one JSON line per violating program on stdout."""
+    import json
+    import sys
+    core.lib()
+    progs = json.loads(sys.stdin.read())
+    res = []
+    for i, p_ in enumerate(progs):
+        try:
+            out = execute(p_)
+        except core.HarnessError as e:
+            res.append(dict(index=i, harness=str(e)))
+            continue
+        if out.get("violation"):
+            res.append(dict(index=i, violation=out["violation"]))
+    print("RESULT " + json.dumps(core.jsonable(res)))
+
+
+def _run_first_use_batch(progs):
+    import json
+    import os
+    import subprocess
+    import sys
+    p = subprocess.run(
+        [sys.executable, "-B", "-c",
+         "import sys; sys.path.insert(0, %r); from dsim.props import c18; "
+         "c18._first_use_worker()" % core.VERIF],
+        input=json.dumps(core.jsonable(progs)), capture_output=True,
+        text=True, timeout=900, env=dict(os.environ, PYTHONHASHSEED="3"))
+    line = [l for l in p.stdout.splitlines() if l.startswith("RESULT ")]
+    if p.returncode or not line:
+        raise core.HarnessError("first-use worker failed: " + p.stderr[-600:])
+    return json.loads(line[0][7:])
+
+
+def extra(tier, seed):
+    import concurrent.futures as cf
+    import time
+    t0 = time.time()
+    nb = 128 if tier == "quick" else 800
+    batches = []
+    for b in range(nb):
+        progs = _first_use_programs(seed, tier, b)
+        for p_ in progs:
+            exp, lens = sequential_phase(p_)
+            p_["expected"] = exp
+            p_["lengths"] = lens
+        batches.append(progs)
+    viols = []
+    with cf.ThreadPoolExecutor(max_workers=min(16, os.cpu_count() or 1)) as ex:
+        for b, res in enumerate(ex.map(_run_first_use_batch, batches)):
+            for r_ in res:
+                if "harness" in r_:
+                    raise core.HarnessError(r_["harness"])
+                # replayed as the batch prefix up to the violating program in
+                # a fresh interpreter
+                viols.append(dict(
+                    index=-1000 - b, run_seed=0,
+                    program=dict(first_use=batches[b][:r_["index"] + 1]),
+                    violation=r_["violation"]))
+    n = nb * len(FIRST_USE_HASHES)
+    return dict(evaluations=n, distinct_nontrivial=n,
+                samples=[dict(kind="first use in a fresh interpreter",
+                              interpreters=nb,
+                              programs_per_interpreter=len(FIRST_USE_HASHES))],
+                wall_s=time.time() - t0, violations=viols,
+                report=dict(first_use_interpreters=nb, first_use_programs=n))
